@@ -79,11 +79,24 @@ func (g *coroGen) stmt() []string {
 	tp := g.tp
 	g.depth++
 	defer func() { g.depth-- }()
-	kind := tp.Pick(5, 3, 6, 3, 2, 2, 2, 2)
+	kind := tp.Pick(5, 3, 6, 3, 2, 2, 2, 2, 3)
 	if g.depth > 3 && (kind == 2 || kind == 3) {
 		kind = 1
 	}
 	switch kind {
+	case 8:
+		// a local written before a suspension point and read afterwards ONLY
+		// on a path that ends in an error return (liveness across suspension)
+		set := []string{"e = c", "e = x & 255", "e = args.n & 7", "e = this.f0 ~mod+ 1", "e = i ~mod+ 3"}[tp.Draw(5)]
+		op := []string{">", "==", "<", "<>"}[tp.Pick(3, 2, 2, 1)]
+		k := []int{0, 1, 2, 3, 5, 100}[tp.Draw(6)]
+		st := []string{"#bad input", "#too big"}[tp.Draw(2)]
+		out := append([]string{set}, g.suspender()...)
+		out = append(out, fmt.Sprintf("if e %s %d {", op, k))
+		if tp.Chance(2, 3) {
+			out = append(out, "\tthis.f1 = e")
+		}
+		return append(out, fmt.Sprintf("\treturn \"%s\"", st), "}")
 	case 0:
 		return g.suspender()
 	case 1: // arithmetic on locals and fields
